@@ -20,7 +20,7 @@ def RULE(tier):
         "argument; at most one non-plain kind per graph at the largest n) x key styles (int / tuple / str, both insertion orders on the "
         "smaller graphs) x requests (every non-empty key subset as flat list, every single key, two nestings) x entry points "
         f"{ENTRIES} x (num_workers, chunksize) in {_sweep.CONFIGS} x EVERY completion order (stateless DFS, no bound). "
-        "plus, for get_async/threaded/sync, a pre-populated cache= holding the reference value of every single key / of the whole request. A case is one (graph, request, entry, config); evaluations counts complete executions; non-trivial = at least two batches were "
+        "plus, for get_async/threaded/sync, literal nodes removed from the graph and supplied through a pre-populated cache= instead (every single literal, and all of them). A case is one (graph, request, entry, config); evaluations counts complete executions; non-trivial = at least two batches were "
         "pending simultaneously in some execution of the case."
     )
 
@@ -40,7 +40,10 @@ def cases_of(shard, tier):
                 yield (entry, n, mask, kinds, style, rev, req, nw, cs, ())
             # pre-populated cache= (values = the reference values of those keys): every single node, and the whole request
             if entry in ("async", "threaded", "sync") and style == "int" and not rev and req != [] and req != [[]]:
-                pcs = [(i,) for i in range(n)] + [tuple(sorted(set(_sweep.flat(req))))]
+                lits = [i for i in range(n) if kinds[i] == "d"]
+                if not lits:
+                    continue
+                pcs = [(i,) for i in lits] + [tuple(lits)]
                 for pc in dict.fromkeys(pcs):
                     for nw, cs in ([(1, 1)] if entry == "sync" else [(2, 1), (3, 2)]):
                         yield (entry, n, mask, kinds, style, rev, req, nw, cs, (("cache", pc),))
